@@ -14,10 +14,16 @@ for i, a in enumerate(sys.argv):
     if a == "--tier":
         tier = sys.argv[i + 1]
 src = "/tmp/seed-out/%s" % prop
+outk = k
+for i, a in enumerate(sys.argv):
+    if a == "--src":
+        src = os.path.join(sys.argv[i + 1], prop)
+    if a == "--as":
+        outk = sys.argv[i + 1]
 patch = os.path.join(src, "change%s.diff" % k)
 demo = os.path.join(src, "demo%s.py" % k)
 notes = os.path.join(src, "notes%s.md" % k)
-out = "/verif/seeded/%s-%s" % (prop, k)
+out = "/verif/seeded/%s-%s" % (prop, outk)
 os.makedirs(out, exist_ok=True)
 def sh(cmd, **kw):
     return subprocess.run(cmd, shell=True, capture_output=True, text=True, **kw)
